@@ -13,7 +13,7 @@ import (
 func init() {
 	register(&propInfo{
 		ID:          "C14",
-		Explanation: "Static lockset analysis (must-hold sets per SSA instruction, entry sets propagated over static call sites) of every write-side use of the WebSocket, of the socket swap, of the message writer's lifetime and of every access to the shared per-connection tables. Decides, on all control paths of the current source, the structural necessary conditions for frames not to interleave: a common mutex at every gorilla write-side call and at the socket swap; the message writer obtained from NextWriter stays inside that critical section and is closed on every path; the lazily published writer is confined until its consumer returned; every shared table/flag has one guarding mutex held at every non-construction access. R14.1 also covers close control frames written with WriteControl.",
+		Explanation: "Static lockset analysis (must-hold sets per SSA instruction, entry sets propagated over static call sites) of every write-side use of the WebSocket, of the socket swap, of the message writer's lifetime and of every access to the shared per-connection tables. Decides, on all control paths of the current source, the structural necessary conditions for frames not to interleave: a common mutex at every gorilla write-side call and at the socket swap; the message writer obtained from NextWriter stays inside that critical section and is closed on every path; the lazily published writer is confined until its consumer returned; every shared table/flag has one guarding mutex held at every non-construction access. R14.1 also covers close control frames written with WriteControl. (R14.7) nothing handed to WriteJSON contains an un-marshalled parameter value.",
 		NotDecided:  "Real interleavings, gorilla/websocket's own correctness, unlocked reads of the socket pointer on the read side (ordered by goroutine-spawn structure, not by a lock), payload well-formedness (values through encoding/json).",
 		Assumptions: []string{
 			"gorilla/websocket allows one concurrent writer; Close and WriteControl are documented as safe to call concurrently",
@@ -101,19 +101,36 @@ func (c *Ctx) isConstruction(u FieldUse) bool {
 	if isFreshAlloc(u.Base) {
 		return true
 	}
-	if u.Fn != c.R.FnLoop {
+	noSpawnBefore := func(fn *ssa.Function, at ssa.Instruction) bool {
+		spawned := false
+		allInstrs(fn, func(in ssa.Instruction) {
+			if spawned || !c.P.spawns(in) {
+				return
+			}
+			if in == at || reachFrom(in, func(x ssa.Instruction) bool { return x == at }, nil) != nil {
+				spawned = true
+			}
+		})
+		return !spawned
+	}
+	if u.Fn == c.R.FnLoop {
+		return noSpawnBefore(u.Fn, u.At)
+	}
+	// a helper that sets up the connection state and is only ever called from the loop's prologue
+	// (initConnState()): nothing runs concurrently there either
+	if c.R.FnLoop == nil || c.P.asyncUsed(u.Fn) {
 		return false
 	}
-	spawned := false
-	allInstrs(u.Fn, func(in ssa.Instruction) {
-		if spawned || !c.P.spawns(in) {
-			return
+	callers := c.P.syncCallers(u.Fn)
+	if len(callers) == 0 || !noSpawnBefore(u.Fn, u.At) {
+		return false
+	}
+	for _, cs := range callers {
+		if cs.Parent() != c.R.FnLoop || !noSpawnBefore(c.R.FnLoop, cs) {
+			return false
 		}
-		if in == u.At || reachFrom(in, func(x ssa.Instruction) bool { return x == u.At }, nil) != nil {
-			spawned = true
-		}
-	})
-	return !spawned
+	}
+	return true
 }
 
 func runC14(c *Ctx) {
